@@ -95,6 +95,47 @@ async fn store_barrier(app: &Arc<AppShareData>) {
     tokio::time::sleep(Duration::from_millis(20)).await;
 }
 
+/// A leader whose user table is empty creates the default administrator some time after start-up (0.5 s or
+/// 10 s, UserManager::inject): bootstrap behaviour that every real installation goes through exactly once.
+/// The scripted node makes that moment deterministic: the first leader of a fresh data directory writes one
+/// user that no generated request touches, so the table is never empty afterwards.
+async fn ensure_keeper_user(app: &Arc<AppShareData>) {
+    use rnacos::raft::db::table::{TableManagerQueryReq, TableManagerReq, TableManagerResult};
+    let count = match app
+        .raft_table_manage
+        .send(TableManagerQueryReq::QueryPageList {
+            table_name: rnacos::common::constant::USER_TREE_NAME.clone(),
+            like_key: None,
+            offset: None,
+            limit: Some(1),
+            is_rev: false,
+        })
+        .await
+    {
+        Ok(Ok(TableManagerResult::PageListResult(total, _))) => total,
+        _ => return,
+    };
+    if count > 0 {
+        return;
+    }
+    let u = rnacos::user::model::UserDo {
+        username: "zz-keeper".to_string(),
+        nickname: "keeper".to_string(),
+        gmt_create: 1_700_000_000,
+        gmt_modified: 1_700_000_000,
+        enable: false,
+        roles: vec!["2".to_string()],
+        ..Default::default()
+    };
+    let req = ClientRequest::TableManagerReq(TableManagerReq::Set {
+        table_name: rnacos::common::constant::USER_TREE_NAME.clone(),
+        key: b"zz-keeper".to_vec(),
+        value: u.to_bytes(),
+        last_seq_id: None,
+    });
+    let _ = app.raft.client_write(ClientWriteRequest::new(req)).await;
+}
+
 async fn wait_leader(app: &Arc<AppShareData>, secs: u64) -> Result<(), String> {
     let t0 = Instant::now();
     let mut last = String::new();
@@ -373,7 +414,10 @@ async fn history_ids(app: &Arc<AppShareData>) -> Value {
 async fn exec(app: &Arc<AppShareData>, op: &NodeOp, spawned: &mut Vec<tokio::task::JoinHandle<()>>, data_dir: &str) -> NodeRes {
     match op {
         NodeOp::WaitLeader => match wait_leader(app, 30).await {
-            Ok(()) => NodeRes::Ok,
+            Ok(()) => {
+                ensure_keeper_user(app).await;
+                NodeRes::Ok
+            }
             Err(e) => NodeRes::Err(e),
         },
         NodeOp::Write(req) => match app.raft.client_write(ClientWriteRequest::new(req.clone())).await {
